@@ -245,6 +245,10 @@ func runC07(p *core.Program, r *core.Report) {
 						}
 						c.ob("AG7", fname, "promoted node", p.InstrPos(call), tgt == s.origin, fmt.Sprintf("moveFront is applied to %q, expected the entry found (%q)", tgt, s.origin))
 					}
+					// a hit may skip the move only where the entry is known to be the front one already
+					if !okMv && hasFact(fs, s.origin, "==", "c.evictList.root.next") {
+						okMv = true
+					}
 					c.ob("PT2", fname, "promotion on every hit", p.InstrPos(ret), okMv, "a successful lookup can return without moving the entry to the front")
 				}
 				// values are read after the move of pointers only: value fields are not written by the list, fine
@@ -318,6 +322,31 @@ func runC07(p *core.Program, r *core.Report) {
 			c.ob("PV2", fname, "value overwrite", p.InstrPos(st), okS, fmt.Sprintf("Add(existing key) must store its value parameter into the found entry (stores into %q)", at))
 		}
 		c.ob("PV2", fname, "latest value kept", c.fpos(fn), nVal == 1, "Add(existing key) must overwrite the entry's value exactly once")
+		// every return of the existing-key branch comes after the overwrite and after the promotion
+		isHit := func(v ssa.Value) bool { return x.path(v) == "ok(c.items[key])" }
+		for _, b := range fn.Blocks {
+			ret, ok := b.Instrs[len(b.Instrs)-1].(*ssa.Return)
+			if !ok || !boolGuard(fn, b, isHit, true) {
+				continue
+			}
+			stored, moved := false, false
+			for _, st := range fieldStores([]*ssa.Function{fn}, "node", "value") {
+				if st.Block() == b || st.Block().Dominates(b) {
+					stored = true
+				}
+			}
+			for _, call := range callsTo(fn, lf["moveFront"]) {
+				if call.Block() == b || call.Block().Dominates(b) {
+					moved = true
+				}
+			}
+			fs := edgeFacts(x, fn, b)
+			if !moved && hasFact(fs, "c.items[key]", "==", "c.evictList.root.next") {
+				moved = true
+			}
+			c.ob("PV2", fname, "overwrite on every existing-key path", p.InstrPos(ret), stored, "Add(existing key) can return without storing the new value: a later lookup returns a stale value")
+			c.ob("PT2", fname, "promotion on every existing-key path", p.InstrPos(ret), moved, "Add(existing key) can return without moving the entry to the front")
+		}
 		// new-key path
 		var ins *ssa.MapUpdate
 		nIns := 0
